@@ -422,8 +422,14 @@ class ZoneFn:
                     return 'elem:%s%s' % (pzf.body.local_name(root), ('.' + comp) if comp else '')
             return None
         if comp == '':
+            if len(comps) == 1 and comps[0] is not None and comps[0][0] == 'iterparam':
+                return 'elem:%s' % pzf.body.local_name(comps[0][1])
             return pzf.elem_sym_of_desc(comps[0]) if len(comps) == 1 and comps[0] is not None else None
+        if len(comps) == 1 and comps[0] is not None and comps[0][0] == 'iterparam':
+            return 'elem:%s.%s' % (pzf.body.local_name(comps[0][1]), comp)
         if comp.isdigit() and len(comps) > 1 and int(comp) < len(comps) and comps[int(comp)] is not None:
+            if comps[int(comp)][0] == 'iterparam':
+                return None
             return pzf.elem_sym_of_desc(comps[int(comp)])
         return None
 
@@ -460,6 +466,8 @@ class ZoneFn:
         ty = self.body.local_ty(l).replace('&mut ', '').lstrip('&').strip()
         if ty.startswith(('[', 'std::vec::Vec<')):
             return self.desc_place(pl)
+        if self.fd.is_param(l) and self.body.kind != 'Closure':
+            return ('iterparam', l)       # an iterator handed in by the caller: its items are known only at the call sites
         d = self.single_def(l)
         if d is None:
             return None
